@@ -564,7 +564,7 @@ class Task(object):
 
         if not state:
             states = rps.FINAL
-        if not isinstance(state, list):
+        elif not isinstance(state, list):
             states = [state]
         else:
             states = state
@@ -585,6 +585,10 @@ class Task(object):
         while self.state not in states:
 
             time.sleep(0.1)
+
+            if self.state in rps.FINAL:
+                # no further state progression will happen
+                break
 
             if timeout and (timeout <= (time.time() - start_wait)):
                 break
